@@ -186,6 +186,8 @@ class Soap11(XmlDocument):
         self._from_unicode_handlers[DateTime] = self.datetime_from_unicode_iso
 
     def create_in_document(self, ctx, charset=None):
+        parser = XMLParser(**self.parser_kwargs)
+
         if isinstance(ctx.transport, HttpTransportContext):
             # according to the soap-via-http standard, soap requests must only
             # work with proper POST requests.
@@ -198,11 +200,18 @@ class Soap11(XmlDocument):
                         "header properly set.")
 
             content_type = cgi.parse_header(content_type)
-            ctx.in_string = collapse_swa(ctx, content_type, self.ns_soap_env)
 
-        ctx.in_document = _parse_xml_string(ctx.in_string,
-                                            XMLParser(**self.parser_kwargs),
-                                                                        charset)
+            # the envelope of a multipart request is parsed with the same
+            # parser settings as any other request.
+            try:
+                ctx.in_string = collapse_swa(ctx, content_type,
+                                                      self.ns_soap_env, parser)
+
+            except XMLSyntaxError as e:
+                logger_invalid.error("%r in multipart request", e)
+                raise Fault('Client.XMLSyntaxError', str(e))
+
+        ctx.in_document = _parse_xml_string(ctx.in_string, parser, charset)
 
     def decompose_incoming_envelope(self, ctx, message=XmlDocument.REQUEST):
         envelope_xml, xmlids = ctx.in_document
